@@ -255,12 +255,24 @@ def prove(prop_file, timeout=1500):
             ok = False
             log += '\n' + out
         assumptions = out
+    coqchk = None
+    if ok and os.environ.get('VERIF_COQCHK') == '1':
+        # independent re-check of the compiled closure and the axioms it relies on (thorough tier)
+        lock = _lock()
+        try:
+            rc, out2 = sh(['timeout', '1500', 'coqchk', '-silent', '-o', '-Q', 'theories', 'DD', f'DD.Props.{prop_file}'], cwd=COQ, timeout=1530)
+        finally:
+            lock.close()
+        coqchk = dict(rc=rc, tail=out2[-1500:])
+        if rc != 0:
+            ok = False
+            log += '\ncoqchk failed:\n' + out2[-2000:]
     n_stmt, n_qed, names, bad = count_obligations(closure)
     axioms = sorted(set(re.findall(r'^([A-Za-z_][\w.]*)\s*:', assumptions, re.M)))
     closed = assumptions.count('Closed under the global context')
     return dict(ok=ok and not bad and n_stmt == n_qed, make_ok=ok, log=log[-6000:], closure=closure,
                 obligations=n_stmt, discharged=n_qed if ok else 0, names=names,
-                forbidden=bad, assumptions=assumptions[-4000:], axioms=axioms,
+                forbidden=bad, assumptions=assumptions[-4000:], axioms=axioms, coqchk=coqchk,
                 closed_count=closed, wall=time.time() - t0)
 
 
@@ -504,6 +516,7 @@ class Ctx:
                 theorems=self.proof['names'][-60:],
                 proof_files=self.proof['closure'],
                 print_assumptions=self.proof['assumptions'][-2500:],
+                coqchk=self.proof.get('coqchk'),
             )
         cov.update(self.extra)
         ev = dict(property_id=self.pid, tier=self.tier, seed=self.seed, level='proof',
